@@ -72,8 +72,9 @@ CLAIMS = {
             TRUST + "Width classes as for C10.", "5/C11"),
     "C15": ("TLA+ reference str semantics (PyStr.tla split/splitlines; Python's own answer logged as environment fact for "
             "delegated methods and regexes): TLC trace validation of real method calls",
-            "split/splitlines pieces must be exactly the cell sub-ranges the reference split gives; ljust/rjust text must agree "
-            "with str and invent no formatting; delegated methods must agree with str and carry exactly the shared formatting.",
+            "split/splitlines pieces must be exactly the cell sub-ranges the reference split gives (every line boundary of the "
+            "library reference, separators able to match zero characters); ljust/rjust text must agree "
+            "with str and invent no formatting; delegated methods (every public str method that __getattr__ hands through) must agree with str and carry exactly the shared formatting.",
             TRUST + "Python str/re semantics for delegated methods and regex split are taken from Python itself.", "5/C15"),
     "C16": ("TLA+ greedy reference wrap (Wrap.tla): TLC trace validation of bounded-exhaustive real linesplit calls",
             "Every layout over {x,y,space,tab,newline} with formatting changes inside words and whitespace x columns 1..6; TLC "
@@ -144,7 +145,7 @@ CLAIMS = {
             "Term.tla validate the recorded snapshots and terminal tokens",
             "Every nesting of <=3 contexts, option combination and crash point of the bounded model plus scenario families "
             "(repeated and nested Inputs, SIGINT from another thread during a blocked request, non-main thread, initial "
-            "O_NONBLOCK) run on real ptys; after each step termios attributes, O_NONBLOCK, SIGINT handler, wake-up fd and "
+            "O_NONBLOCK, renders that raise part-way with the exception leaving the window) run on real ptys; after each step termios attributes, O_NONBLOCK, SIGINT handler, wake-up fd and "
             "open-fd count are recorded and TLC checks Restored at every exit, plus cursor/alternate-screen state via the "
             "reference terminal.",
             TRUST + "At most one window context at a time; an interrupt landing inside __enter__/__exit__ is out of scope.", "5/C12"),
